@@ -45,7 +45,8 @@ def _check_copies():
 
 
 def _hop_key(hp):
-    return "%s/%s/%s[%s]" % (hp["scheme"], hp["user"], hp["host"] or "-", ",".join(_ip(a) for a in hp["answers"]))
+    return "%s/%s/%s%s[%s]" % (hp["scheme"], hp["user"], hp["host"] or "-", (":" + hp["port"]) if hp.get("port") else "",
+                              ",".join(_ip(a) for a in hp["answers"]))
 
 
 def _case_key(c):
